@@ -296,6 +296,13 @@ type rcWalker struct {
 	unknown bool
 	ctx     []*rcBreakCtx
 	unit    []ast.Node
+	// family "Globals" (races_globals.go) only — nil / false for the field table, whose output they never touch:
+	// onIdent is told the lock state at every identifier the walk evaluates; with globalLocks, mutex operations on
+	// expressions rooted at a package-level variable (`mu.Lock()`, `registry.mu.RLock()`) are tracked as well,
+	// their keys are listed in globalKeys.
+	onIdent     func(id *ast.Ident, st rcState)
+	globalLocks bool
+	globalKeys  map[string]bool
 }
 
 func (w *rcWalker) curUnit() ast.Node { return w.unit[len(w.unit)-1] }
@@ -358,6 +365,15 @@ func (w *rcWalker) lockCall(e ast.Expr) (key, op string, ok bool) {
 		return
 	}
 	x, fd, _ := w.field(outer.X)
+	if w.globalLocks {
+		if id := rcRootIdent(outer.X); id != nil && (fd == nil || fd.kind == "lock") {
+			if v, isVar := w.p.info.Uses[id].(*types.Var); isVar && v.Parent() != nil && v.Parent().Parent() == types.Universe {
+				k := w.p.src.text(outer.X)
+				w.globalKeys[k] = true
+				return k, outer.Sel.Name, true
+			}
+		}
+	}
 	if fd == nil || fd.kind != "lock" {
 		return
 	}
@@ -386,7 +402,11 @@ func (w *rcWalker) exprs(es []ast.Expr, st rcState, mode string) {
 func (w *rcWalker) expr(e ast.Expr, st rcState, mode string) {
 	switch x := e.(type) {
 	case nil:
-	case *ast.Ident, *ast.BasicLit:
+	case *ast.BasicLit:
+	case *ast.Ident:
+		if w.onIdent != nil {
+			w.onIdent(x, st)
+		}
 	case *ast.SelectorExpr:
 		if _, fd, owner := w.field(x); fd != nil {
 			kind, sync := "r", "plain"
